@@ -261,13 +261,18 @@ pub fn get_navigation_node_from_braille_position(mathml: Element, position: usiz
     // save the current highlight state, set the state to be the end points so we can find the braille, then restore the state
     // FIX: this can fail if there is 8-dot braille
     use crate::interface::{get_preference, set_preference};
-    let saved_highlight_style = get_preference("BrailleNavHighlight".to_string()).unwrap();
-    set_preference("BrailleNavHighlight".to_string(), "EndPoints".to_string()).unwrap();
+    let saved_highlight_style = get_preference("BrailleNavHighlight".to_string())?;
+    if mathml.children().is_empty() {
+        bail!("MathML has not been set -- can't find the navigation node for a braille position");
+    }
+    set_preference("BrailleNavHighlight".to_string(), "EndPoints".to_string())?;
 
     N_PROBES.with(|n| {*n.borrow_mut() = 0});
     // dive into the child of the <math> element (should only be one)
-    let search_state = find_navigation_node(mathml, as_element(mathml.children()[0]), position)?;
-    set_preference("BrailleNavHighlight".to_string(), saved_highlight_style.to_string()).unwrap();
+    let search_state = find_navigation_node(mathml, as_element(mathml.children()[0]), position);
+    // restore the preference before reporting any error -- this is a query and must not change the highlight style
+    set_preference("BrailleNavHighlight".to_string(), saved_highlight_style.to_string())?;
+    let search_state = search_state?;
 
     // we know the attr value exists because it was found internally
     // FIX: what should be done if we never did the search?
